@@ -52,9 +52,9 @@ def plan(prop, tier):
                            ("c05_crash_nosync", C(MaxCrashes=1, MaxBatches=3, NoSync="TRUE"), SAFETY, ACTIONS)]
         # (one crash per behaviour: the materialiser rebuilds an image from the file operations recorded since the
         # directory was created, which a second crash -- on top of a materialised image -- does not have)
-        P["sim"] = [("c05_walk", C(MaxCrashes=1, MaxBatches=5, SimLen=16, MaxReopens=1), 300 if q else 3000, 8),
-                    ("c05_walk_nosync", C(MaxCrashes=1, MaxBatches=5, SimLen=16, NoSync="TRUE"), 100 if q else 1000, 8)]
-        P["leads"] = [("c05_lead_scan", C(MaxCrashes=1, MaxBatches=3), ["ScanStopsOnShortRead"], ["LeadAtLeastSynced", "LeadOpenNeverFails"], 8),
+        P["sim"] = [("c05_walk", C(MaxCrashes=1, MaxBatches=5, SimLen=16, MaxReopens=1), 300 if q else 3000, 12),
+                    ("c05_walk_nosync", C(MaxCrashes=1, MaxBatches=5, SimLen=16, NoSync="TRUE"), 100 if q else 1000, 12)]
+        P["leads"] = [("c05_lead_scan", C(MaxCrashes=1, MaxBatches=3), ["ScanStopsOnShortRead"], ["LeadAtLeastSynced", "LeadOpenNeverFails"], 12),
                       ("c05_lead_hdr", C(MaxCrashes=1, MaxBatches=3), ["BadHeaderAbortsOpen", "NoValidFileFailsOpen"], ["LeadOpenNeverFails"], 4),
                       # images in which a footer survives while the data it points to is lost: legal only if the
                       # implementation does not sync between the two (the driver checks that against the recorded syncs)
@@ -64,7 +64,7 @@ def plan(prop, tier):
         P["relevant"] = r"^crash\."
         P["rule"] = ("behaviours of MossStore with Crash actions: TLC chooses the crash point (between any two file operations of an append or "
                      "compaction round) and the disk image (any subset of the un-synced records of every file lost, the last write torn); the image is checked for legality against the recorded syncs and materialised from "
-                     "the recorded writes of the implementation with every tear offset class of the record kind, reopened, and must open and hold the "
+                     "the recorded writes of the implementation with every tear offset class of the record kind (the torn record ends the file, or its unwritten tail reads as zeroes because the file length was already extended), reopened, and must open and hold the "
                      "reference after a prefix at least as long as the last synced round; non-trivial = the image differs from the full disk content")
     elif prop == "C06":
         P["exhaustive"] = [("c06_faults", C(MaxFaults=2, MaxBatches=3, Kinds='{"append","full","partial"}'), SAFETY, ACTIONS)]
